@@ -374,6 +374,145 @@ func genPath(r *vlib.Rng, arcs bool) []seg {
 	return out
 }
 
+// decimal number with at most `dec` fraction digits, spelled plainly or with an
+// exponent / explicit sign
+func decNum(r *vlib.Rng, v float64, dec int) num {
+	p := math.Pow(10, float64(dec))
+	i := int64(math.Round(v * p))
+	neg := i < 0
+	if neg {
+		i = -i
+	}
+	ip := strconv.FormatInt(i/int64(p), 10)
+	fp := ""
+	if dec > 0 {
+		fp = fmt.Sprintf("%0*d", dec, i%int64(p))
+		fp = strings.TrimRight(fp, "0")
+	}
+	var sb strings.Builder
+	if neg {
+		sb.WriteByte('-')
+	} else if r.Chance(1, 16) {
+		sb.WriteByte('+')
+	}
+	if ip == "0" && fp != "" && r.Bool() {
+		ip = ""
+	}
+	sb.WriteString(ip)
+	doe := false
+	if fp != "" {
+		sb.WriteString("." + fp)
+		doe = true
+	}
+	exp := 0
+	if r.Chance(1, 10) {
+		sb.WriteString("e0")
+		doe = true
+	}
+	return num{s: sb.String(), v: decValue(neg, ip, fp, exp), dotOrExp: doe}
+}
+
+var arcRots = []float64{0, 0, 30, 45, 90, -60, 123.4, 180, 270, 360, -90, 15.5, 720.25, 1e3}
+
+// genArcPath: paths made of arcs whose geometry is well conditioned (radii
+// within a factor 6 of each other, not tiny against the coordinates), in both
+// regimes of F.6.6 (radii large enough / too small for the chord: scaled), all
+// flag combinations, rotated axes, absolute and relative, several argument
+// groups, with a few straight or curved segments in between
+func genArcPath(r *vlib.Rng) []seg {
+	cx, cy := float64(r.Range(-150, 150)), float64(r.Range(-150, 150))
+	if r.Bool() {
+		cx, cy = float64(r.Range(-1500, 1500))/10, float64(r.Range(-1500, 1500))/10
+	}
+	m := seg{letter: 'M', args: []num{decNum(r, cx, 1), decNum(r, cy, 1)}}
+	cx, cy = ratF(m.args[0]), ratF(m.args[1])
+	sx, sy := cx, cy
+	out := []seg{m}
+	n := r.Range(1, 3)
+	for i := 0; i < n; i++ {
+		if r.Chance(1, 6) {
+			x, y := float64(r.Range(-150, 150)), float64(r.Range(-150, 150))
+			if r.Bool() {
+				out = append(out, seg{letter: 'L', args: []num{decNum(r, x, 0), decNum(r, y, 0)}})
+			} else {
+				out = append(out, seg{letter: 'C', args: []num{decNum(r, float64(r.Range(-150, 150)), 0), decNum(r, float64(r.Range(-150, 150)), 0),
+					decNum(r, float64(r.Range(-150, 150)), 0), decNum(r, float64(r.Range(-150, 150)), 0), decNum(r, x, 0), decNum(r, y, 0)}})
+			}
+			cx, cy = x, y
+			continue
+		}
+		rel := r.Chance(1, 3)
+		letter := byte('A')
+		if rel {
+			letter = 'a'
+		}
+		s := seg{letter: letter}
+		groups := 1
+		if r.Chance(1, 4) {
+			groups = 2
+		}
+		for g := 0; g < groups; g++ {
+			dec := r.Intn(3)
+			// chord
+			d := float64(r.Range(20, 1200)) / 10
+			if r.Chance(1, 5) {
+				d = float64(r.Range(2, 30)) / 10
+			}
+			ang := r.Float01() * 2 * math.Pi
+			if r.Chance(1, 4) {
+				ang = float64(r.Intn(8)) * math.Pi / 4
+			}
+			dx, dy := d*math.Cos(ang), d*math.Sin(ang)
+			// radii relative to the half chord
+			f := 1 + float64(r.Range(0, 300))/100 // large enough (mostly)
+			if r.Bool() {
+				f = float64(r.Range(8, 98)) / 100 // too small: F.6.6 scales them
+			}
+			if r.Chance(1, 10) {
+				f = 1
+			}
+			rx := d / 2 * f
+			ratio := 1.0
+			if !r.Chance(1, 5) {
+				ratio = float64(r.Range(17, 600)) / 100
+			}
+			ry := rx * ratio
+			if r.Bool() {
+				rx, ry = ry, rx
+			}
+			rxn, ryn := decNum(r, rx, dec+1), decNum(r, ry, dec+1)
+			if rxn.v.Sign() == 0 || ryn.v.Sign() == 0 {
+				rxn, ryn = decNum(r, 1, 0), decNum(r, 2, 0)
+			}
+			if r.Chance(1, 12) { // F.6.6 step 2: the sign of a radius is dropped
+				neg := decNum(r, -ratF(rxn), dec+1)
+				rxn = neg
+			}
+			rot := vlib.Pick(r, arcRots)
+			if r.Bool() {
+				rot = float64(r.Range(-4000, 4000)) / 10
+			}
+			var ex, ey num
+			if rel {
+				ex, ey = decNum(r, dx, dec), decNum(r, dy, dec)
+				cx, cy = cx+ratF(ex), cy+ratF(ey)
+			} else {
+				ex, ey = decNum(r, cx+dx, dec), decNum(r, cy+dy, dec)
+				cx, cy = ratF(ex), ratF(ey)
+			}
+			s.args = append(s.args, rxn, ryn, decNum(r, rot, 2), flagNum(r), flagNum(r), ex, ey)
+		}
+		out = append(out, s)
+		if r.Chance(1, 8) {
+			out = append(out, seg{letter: "Zz"[r.Intn(2)]})
+			cx, cy = sx, sy
+		}
+	}
+	return out
+}
+
+func ratF(n num) float64 { f, _ := n.v.Float64(); return f }
+
 func spellPath(r *vlib.Rng, segs []seg) string {
 	var sb strings.Builder
 	sb.WriteString(genWsp(r, 0))
@@ -398,6 +537,108 @@ func coqSegs(segs []seg) string {
 		items = append(items, fmt.Sprintf("ASeg %d %s", s.letter, vlib.List(qs)))
 	}
 	return vlib.List(items)
+}
+
+// cos / sin oracle for the x-axis-rotation of every arc of the segments: the
+// binary32 value of the literal, then the expression of elements_path.go:431
+// (float64(rot) * math.Pi / 180).  Check/C18.v validates the values (trig_ok).
+func trigTable(segs []seg, seen map[float32]bool, items *[]string) {
+	for _, s := range segs {
+		if s.letter|0x20 != 'a' {
+			continue
+		}
+		for i := 2; i < len(s.args); i += 7 {
+			f, err := strconv.ParseFloat(s.args[i].s, 32)
+			if err != nil {
+				continue
+			}
+			rot := fl(f)
+			if seen[rot] || !vlib.Finite32(rot) {
+				continue
+			}
+			seen[rot] = true
+			a := float64(rot) * math.Pi / 180
+			*items = append(*items, fmt.Sprintf("TEnt %s %s %s", vlib.Q32(rot), vlib.Q64(math.Cos(a)), vlib.Q64(math.Sin(a))))
+		}
+	}
+}
+
+func coqTrig(segs []seg) string {
+	var items []string
+	trigTable(segs, map[float32]bool{}, &items)
+	return vlib.List(items)
+}
+
+// distribution tags for the arcs of a path whose current point the generator
+// knows (absolute coordinates after an absolute moveto): regime of F.6.6
+// (radii scaled or not), shape, flags.  Informative only.
+func arcTags(segs []seg, tags map[string]bool) {
+	val := func(n num) float64 { f, _ := n.v.Float64(); return float64(fl(f)) }
+	var cx, cy, sx, sy float64
+	known := false
+	for _, s := range segs {
+		lower := s.letter | 0x20
+		rel := s.letter == lower
+		switch lower {
+		case 'm', 'l':
+			for i := 0; i+1 < len(s.args); i += 2 {
+				x, y := val(s.args[i]), val(s.args[i+1])
+				if rel {
+					x, y = x+cx, y+cy
+				} else if lower == 'm' {
+					known = true
+				}
+				cx, cy = x, y
+				if lower == 'm' && i == 0 {
+					sx, sy = x, y
+				}
+			}
+		case 'z':
+			cx, cy = sx, sy
+		case 'a':
+			for i := 0; i+6 < len(s.args); i += 7 {
+				rx, ry, rot := math.Abs(val(s.args[i])), math.Abs(val(s.args[i+1])), val(s.args[i+2])
+				x, y := val(s.args[i+5]), val(s.args[i+6])
+				if rel {
+					x, y = x+cx, y+cy
+				}
+				if known && rx != 0 && ry != 0 && (x != cx || y != cy) {
+					tags["arc"] = true
+					c, sn := math.Cos(rot*math.Pi/180), math.Sin(rot*math.Pi/180)
+					dx, dy := (cx-x)/2, (cy-y)/2
+					x1, y1 := c*dx+sn*dy, -sn*dx+c*dy
+					lam := x1*x1/(rx*rx) + y1*y1/(ry*ry)
+					sc := 1.0
+					if lam > 1 {
+						sc = math.Sqrt(lam)
+						tags["arc-radii-scaled"] = true
+						if rx != ry {
+							tags["arc-radii-scaled-rx!=ry"] = true
+						}
+					} else {
+						tags["arc-radii-fit"] = true
+					}
+					mag := math.Max(math.Max(math.Abs(cx), math.Abs(cy)), math.Max(math.Abs(x), math.Abs(y))) + sc*math.Max(rx, ry)
+					if mag <= 256*sc*math.Min(rx, ry) && lam >= 1.0/(1<<20) && sc*math.Min(rx, ry) >= 1.0/(1<<20) {
+						tags["arc-geometry-checked"] = true
+					}
+					if rx != ry {
+						tags["arc-rx!=ry"] = true
+					}
+					if math.Mod(rot, 90) != 0 {
+						tags["arc-rotated"] = true
+					}
+					tags[fmt.Sprintf("arc-flags-%s%s", s.args[i+3].s, s.args[i+4].s)] = true
+					if s.args[i].v.Sign() < 0 || s.args[i+1].v.Sign() < 0 {
+						tags["arc-negative-radius"] = true
+					}
+				}
+				cx, cy = x, y
+			}
+		default:
+			known = false // the current point is not tracked through the other commands
+		}
+	}
 }
 
 func descSegs(segs []seg) []string {
@@ -450,7 +691,8 @@ func pathCase(segs []seg, d string, extraTags ...string) vlib.Case {
 	for _, t := range extraTags {
 		tags[t] = true
 	}
-	return vlib.Case{Kind: "path", Coq: fmt.Sprintf("CPath %s %s (%s)", coqSegs(segs), coqBytes(d), ires),
+	arcTags(segs, tags)
+	return vlib.Case{Kind: "path", Coq: fmt.Sprintf("CPath %s %s %s (%s)", coqSegs(segs), coqBytes(d), coqTrig(segs), ires),
 		Desc: map[string]interface{}{"d": d, "cmds": descSegs(segs), "impl": desc}, Tags: tagList(tags), Nontrivial: len(segs) >= 2}
 }
 
@@ -580,13 +822,97 @@ func attrNum(r *vlib.Rng, nonneg bool) (string, fl) {
 	return n.s, fl(f)
 }
 
+var unitNames = []struct{ suffix, coq string }{
+	{"px", "UPx"}, {"cm", "UCm"}, {"mm", "UMm"}, {"pt", "UPt"}, {"in", "UIn"}, {"Q", "UQ"}, {"pc", "UPc"},
+	{"em", "UEm"}, {"ex", "UEx"}, {"%", "UPerc"},
+}
+
+// attrUnit: a number with, half of the time, a unit (perc: percentages allowed);
+// returns the attribute text and the Coq `uval`
+func attrUnit(r *vlib.Rng, nonneg, perc bool) (string, string) {
+	s, v := attrNum(r, nonneg)
+	if r.Bool() {
+		return s, "(UV " + vlib.Q32(v) + " UPx)"
+	}
+	n := len(unitNames)
+	if !perc {
+		n--
+	}
+	u := unitNames[r.Intn(n)]
+	if r.Chance(1, 3) {
+		u = unitNames[len(unitNames)-1-r.Intn(3)] // em, ex, % more often
+		if !perc && u.suffix == "%" {
+			u = unitNames[7]
+		}
+	}
+	return s + u.suffix, "(UV " + vlib.Q32(v) + " " + u.coq + ")"
+}
+
 func genShapesDoc(r *vlib.Rng) pending {
 	var body strings.Builder
-	var shapes, descs []string
+	var shapes, descs, trig []string
+	trigSeen := map[float32]bool{}
 	tags := map[string]bool{}
 	n := r.Range(1, 4)
 	for i := 0; i < n; i++ {
-		switch r.Intn(8) {
+		units := r.Chance(2, 5)
+		kind := r.Intn(8)
+		if units && kind <= 4 {
+			tags["units"] = true
+			switch kind {
+			case 0, 1:
+				xs, x := attrUnit(r, false, true)
+				ys, y := attrUnit(r, false, true)
+				ws, w := attrUnit(r, r.Chance(5, 6), true)
+				hs, h := attrUnit(r, r.Chance(5, 6), true)
+				el := fmt.Sprintf(`<rect x="%s" y="%s" width="%s" height="%s"`, xs, ys, ws, hs)
+				rxq, ryq := "NoUV", "NoUV"
+				// a percentage rx without ry (or conversely) is not generated: SVG gives the
+				// missing one the other's used value, /repo resolves it against the other axis
+				both := r.Bool()
+				if both || r.Bool() {
+					s, v := attrUnit(r, true, both)
+					el += fmt.Sprintf(` rx="%s"`, s)
+					rxq = "(SomeUV " + v + ")"
+					tags["rect-rx"] = true
+				}
+				if both || rxq == "NoUV" && r.Bool() {
+					s, v := attrUnit(r, true, both)
+					el += fmt.Sprintf(` ry="%s"`, s)
+					ryq = "(SomeUV " + v + ")"
+					tags["rect-ry"] = true
+				}
+				body.WriteString(el + "/>")
+				shapes = append(shapes, fmt.Sprintf("URect %s %s %s %s %s %s", x, y, w, h, rxq, ryq))
+				tags["rect"] = true
+			case 2:
+				cxs, cx := attrUnit(r, false, true)
+				cys, cy := attrUnit(r, false, true)
+				rs, rr := attrUnit(r, true, false) // r="..%" (normalised diagonal) is not modelled
+				body.WriteString(fmt.Sprintf(`<circle cx="%s" cy="%s" r="%s"/>`, cxs, cys, rs))
+				shapes = append(shapes, fmt.Sprintf("UCircle %s %s %s", cx, cy, rr))
+				tags["circle"] = true
+			case 3:
+				cxs, cx := attrUnit(r, false, true)
+				cys, cy := attrUnit(r, false, true)
+				rxs, rx := attrUnit(r, true, true)
+				rys, ry := attrUnit(r, true, true)
+				body.WriteString(fmt.Sprintf(`<ellipse cx="%s" cy="%s" rx="%s" ry="%s"/>`, cxs, cys, rxs, rys))
+				shapes = append(shapes, fmt.Sprintf("UEllipse %s %s %s %s", cx, cy, rx, ry))
+				tags["ellipse"] = true
+			default:
+				x1s, x1 := attrUnit(r, false, true)
+				y1s, y1 := attrUnit(r, false, true)
+				x2s, x2 := attrUnit(r, false, true)
+				y2s, y2 := attrUnit(r, false, true)
+				body.WriteString(fmt.Sprintf(`<line x1="%s" y1="%s" x2="%s" y2="%s"/>`, x1s, y1s, x2s, y2s))
+				shapes = append(shapes, fmt.Sprintf("ULine %s %s %s %s", x1, y1, x2, y2))
+				tags["line"] = true
+			}
+			descs = append(descs, shapes[len(shapes)-1])
+			continue
+		}
+		switch kind {
 		case 0, 1: // rect
 			xs, x := attrNum(r, false)
 			ys, y := attrNum(r, false)
@@ -651,11 +977,20 @@ func genShapesDoc(r *vlib.Rng) pending {
 			shapes = append(shapes, fmt.Sprintf("ShPoly %s %s", vlib.Bool(closed), coqBytes(pts)))
 			tags[tag] = true
 		default:
-			d := spellPath(r, genPath(r, true))
+			var psegs []seg
+			if r.Chance(1, 3) {
+				psegs = genArcPath(r)
+			} else {
+				psegs = genPath(r, true)
+			}
+			trigTable(psegs, trigSeen, &trig)
+			arcTags(psegs, tags)
+			d := spellPath(r, psegs)
 			body.WriteString(fmt.Sprintf(`<path d="%s"/>`, d))
 			shapes = append(shapes, "ShPath "+coqBytes(d))
 			tags["path"] = true
 		}
+		shapes[len(shapes)-1] = "UPlain (" + shapes[len(shapes)-1] + ")"
 		descs = append(descs, shapes[len(shapes)-1])
 	}
 	// root element
@@ -690,13 +1025,26 @@ func genShapesDoc(r *vlib.Rng) pending {
 	} else {
 		vb.noAttr = true
 	}
+	fsq := "NoUV"
+	if tags["units"] && r.Chance(1, 3) {
+		s, v := attrNum(r, true)
+		u := vlib.Pick(r, []struct{ suffix, coq string }{{"", "UPx"}, {"px", "UPx"}, {"em", "UEm"}, {"%", "UPerc"}, {"pt", "UPt"}})
+		root += fmt.Sprintf(` font-size="%s%s"`, s, u.suffix)
+		fsq = "(SomeUV (UV " + vlib.Q32(v) + " " + u.coq + "))"
+		tags["root-font-size"] = true
+	}
 	root += ">"
 	doc := root + body.String() + "</svg>"
 	w, h := fl(r.Range(1, 800)), fl(r.Range(1, 800))
 	if r.Chance(1, 3) {
 		w, h = fl(r.Range(1, 4000))/8, fl(r.Range(1, 4000))/8
 	}
-	return pending{kind: "shapes", job: docJob{Svg: doc, W: w, H: h}, coqIn: vlib.List(shapes),
+	iw, ih := w, h
+	if vb.hasViewbox {
+		iw, ih = vb.vw, vb.vh
+	}
+	return pending{kind: "shapes", job: docJob{Svg: doc, W: w, H: h},
+		coqIn: fmt.Sprintf("%s %s %s %s %s", fsq, vlib.Q32(iw), vlib.Q32(ih), vlib.List(shapes), vlib.List(trig)),
 		desc: map[string]interface{}{"svg": doc, "width": w, "height": h}, tags: tagList(tags), vb: vb}
 }
 
@@ -974,9 +1322,12 @@ func main() {
 	for w.N() < *n {
 		r := rng.Fork()
 		switch k := r.Intn(20); {
-		case k < 12:
+		case k < 9:
 			segs := genPath(r, true)
 			w.Add(pathCase(segs, spellPath(r, segs)))
+		case k < 12:
+			segs := genArcPath(r)
+			w.Add(pathCase(segs, spellPath(r, segs), "arc-stream"))
 		case k < 16:
 			var d, origin string
 			if r.Chance(2, 3) {
@@ -1077,5 +1428,4 @@ func main() {
 				Desc: map[string]interface{}{"par": par, "w": width, "h": height, "viewbox": vb, "out": []fl{sx, sy, tx, ty}}, Nontrivial: true})
 		}
 	}
-	_ = math.Pi
 }
